@@ -2,13 +2,15 @@
 
    Model: Model/JsonPlus.v (firstMatch, indexEnd, the split function of NewCommentReader with the
    marker tables of NewJsonPlusReader regenerated from json/json.go, bufio.Scanner.Scan, the
-   draining Read).  [reader segs fin] is what a consumer receives when the underlying stream
-   delivers the read segments [segs] and then EOF (fin = 0): the output bytes and how it ended.
+   draining Read).  [reader_dt segs fin dt] is what a consumer receives when the underlying
+   stream delivers the read segments [segs] and then EOF (fin = 0) -- the last segment together
+   with the EOF when dt = true, the EOF by a separate empty read otherwise: the output bytes and
+   how the stream ended.  [reader segs fin] = [reader_dt segs fin false].
    [strip d] is the segmentation-free specification: the split function applied, at EOF, to the
    whole remaining input.  Property theorems only; proofs are in Proofs/JsonPlus*.v. *)
 From Verif Require Import Lib.Base Lib.Sx Gen.Gen_json Model.JsonPlus.
 From Verif Require Import Proofs.JsonPlusIndex Proofs.JsonPlusSplit Proofs.JsonPlusScan
-  Proofs.JsonPlusStrip Proofs.JsonPlusTotal Proofs.JsonPlusExamples.
+  Proofs.JsonPlusStrip Proofs.JsonPlusTotal Proofs.JsonPlusExamples Proofs.JsonPlusLex.
 Open Scope N_scope.
 
 (* [core] A token the split function returns on a prefix of the input (not at EOF) is returned
@@ -28,19 +30,21 @@ Proof. exact (split_tok_facts d e adv tok). Qed.
 Theorem c17_split_total d e s : split d e <> Panic s.
 Proof. exact (split_no_panic d e s). Qed.
 
-(* [core] Any segmentation of the input into (non-empty) reads, 1-byte reads included: the
-   consumer receives exactly strip of the whole input, so two segmentations of the same bytes
-   give the same output and the same end status.  The bound is the scanner's token limit, which
+(* [core] Any segmentation of the input into reads -- 1-byte reads included, empty reads included
+   as long as there are never more than 100 of them in a row ([runs_ok]; bufio.Scanner gives up
+   with io.ErrNoProgress beyond that, which the model reproduces), the last bytes delivered with
+   or before the EOF: the consumer receives exactly strip of the whole input, so two
+   segmentations of the same bytes give the same output and the same end status.  The bound is the scanner's token limit, which
    after the repair of DESIGN 5 item 21 is 2^62 bytes (c17_limit) -- no input that fits in
    memory reaches it. *)
-Theorem c17_reader_is_strip segs :
-  Forall nonempty segs -> lenN (concat segs) < tok_limit -> reader segs 0 = strip (concat segs).
-Proof. exact (reader_strip segs). Qed.
+Theorem c17_reader_is_strip segs dt :
+  runs_ok segs -> lenN (concat segs) < tok_limit -> reader_dt segs 0 dt = strip (concat segs).
+Proof. exact (reader_dt_strip segs dt). Qed.
 
-Theorem c17_segmentation segs1 segs2 :
-  Forall nonempty segs1 -> Forall nonempty segs2 -> concat segs1 = concat segs2 ->
-  lenN (concat segs1) < tok_limit -> reader segs1 0 = reader segs2 0.
-Proof. exact (reader_segmentation segs1 segs2). Qed.
+Theorem c17_segmentation segs1 segs2 dt1 dt2 :
+  runs_ok segs1 -> runs_ok segs2 -> concat segs1 = concat segs2 ->
+  lenN (concat segs1) < tok_limit -> reader_dt segs1 0 dt1 = reader_dt segs2 0 dt2.
+Proof. exact (reader_dt_segmentation segs1 segs2 dt1 dt2). Qed.
 
 Theorem c17_limit : tok_limit = 4611686018427387904.
 Proof. exact tok_limit_value. Qed.
@@ -54,38 +58,50 @@ Proof. exact tok_limit_value. Qed.
    For every such document and every segmentation of its rendering into reads, the consumer
    receives the undecorated text byte for byte and then EOF.  encoding/json is a function of
    those bytes, hence decodes the same value. *)
-Theorem c17_strip segs d tail :
-  Forall nonempty segs -> concat segs = render_dec d tail -> doc_ok d tail = true ->
+Theorem c17_strip segs dt d tail :
+  runs_ok segs -> concat segs = render_dec d tail -> doc_ok d tail = true ->
   lenN (concat segs) < tok_limit ->
-  reader segs 0 = (render_plain d, Ok tt).
-Proof. exact (reader_doc segs d tail). Qed.
+  reader_dt segs 0 dt = (render_plain d, Ok tt).
+Proof. exact (reader_doc segs dt d tail). Qed.
 
 Theorem c17_strip_spec d tail : doc_ok d tail = true -> strip (render_dec d tail) = (render_plain d, Ok tt).
 Proof. exact (strip_doc d tail). Qed.
 
 (* [core] A document without comments passes through byte for byte. *)
-Theorem c17_identity segs d :
-  Forall nonempty segs -> concat segs = render_dec d None -> forallb no_comment d = true ->
+Theorem c17_identity segs dt d :
+  runs_ok segs -> concat segs = render_dec d None -> forallb no_comment d = true ->
   doc_ok d None = true -> lenN (concat segs) < tok_limit ->
-  reader segs 0 = (concat segs, Ok tt).
-Proof. exact (reader_identity segs d). Qed.
+  reader_dt segs 0 dt = (concat segs, Ok tt).
+Proof. exact (reader_identity segs dt d). Qed.
+
+(* [core] The same for raw text: [lex t] succeeds exactly on the texts that consist of runs without
+   quote / apostrophe / slash and of string literals closed by an unescaped quote (every JSON
+   text has this shape); such a text passes through unchanged for every segmentation. *)
+Theorem c17_identity_text segs dt d :
+  runs_ok segs -> lex (concat segs) = Some d -> lenN (concat segs) < tok_limit ->
+  reader_dt segs 0 dt = (concat segs, Ok tt).
+Proof. exact (reader_identity_text segs dt d). Qed.
+
+(* every segmentation into non-empty reads is covered by runs_ok *)
+Theorem c17_nonempty_reads_ok segs : Forall nonempty segs -> runs_ok segs.
+Proof. intros H. exact (nonempty_runs_ok segs H 0%nat). Qed.
 
 (* Totality (imported by C07): for every list of read segments, empty reads included, and every
    way the underlying stream ends (EOF or a read error), the reader model never reaches a Go
    run-time panic and its loop terminates (the model's fuel is adequate). *)
-Theorem jsonplus_total segs fin :
+Theorem jsonplus_total segs fin dt :
   fin <> E_FUEL ->
-  (forall s, snd (reader segs fin) <> Panic s) /\ snd (reader segs fin) <> Err E_FUEL.
-Proof. exact (jsonplus_total segs fin). Qed.
+  (forall s, snd (reader_dt segs fin dt) <> Panic s) /\ snd (reader_dt segs fin dt) <> Err E_FUEL.
+Proof. exact (jsonplus_total segs fin dt). Qed.
 
 (* Non-vacuity: a concrete document with an escaped quote followed by slashes inside a string,
    quotes / apostrophes / markers inside comments and an unterminated final line comment
    satisfies the guard, and read one byte at a time it comes out as its undecorated text. *)
 Theorem c17_example :
   doc_ok ex_doc ex_tail = true /\
-  Forall nonempty (map (fun c => [c]) (render_dec ex_doc ex_tail)) /\
+  runs_ok (map (fun c => [c]) (render_dec ex_doc ex_tail)) /\
   reader (map (fun c => [c]) (render_dec ex_doc ex_tail)) 0 = (render_plain ex_doc, Ok tt).
-Proof. exact (conj ex_doc_ok (conj ex_doc_segs_nonempty ex_doc_bytewise)). Qed.
+Proof. exact (conj ex_doc_ok (conj ex_doc_segs_ok ex_doc_bytewise)). Qed.
 
 (* Regression witness of DESIGN 5 item 20 (repaired): the escaped quote no longer ends the literal. *)
 Theorem c17_escaped_quote_intact : reader [w_escaped] 0 = (w_escaped, Ok tt).
@@ -100,6 +116,8 @@ Print Assumptions c17_limit.
 Print Assumptions c17_strip.
 Print Assumptions c17_strip_spec.
 Print Assumptions c17_identity.
+Print Assumptions c17_identity_text.
+Print Assumptions c17_nonempty_reads_ok.
 Print Assumptions jsonplus_total.
 Print Assumptions c17_example.
 Print Assumptions c17_escaped_quote_intact.
